@@ -166,7 +166,9 @@ def run(ctx, coq_ok):
         jobs.append(("ansi", "hostile:node-limit", "SELECT " + ", ".join("c%d" % i for i in range(200)) + " FROM t\n", mode, None, "raw", (("max_parse_nodes", 50),)))
     # templaters
     tsql = ["SELECT {{ a }} FROM {% if x %}t{% else %}u{% endif %}\n", "SELECT {{ undefined_var }} FROM t\n", "{% for i in [1,2] %}SELECT {{i}};\n{% endfor %}",
-            "SELECT {% if %} 1\n", "SELECT {{ 1 + }} FROM t\n", "SELECT {a} FROM {b.c}\n", "SELECT :x, ?, $1, %s FROM t WHERE a = :y\n", "{# c #}\n", "{% macro m() %}x{% endmacro %}SELECT {{ m() }}\n"]
+            "SELECT {% if %} 1\n", "SELECT {{ 1 + }} FROM t\n", "SELECT {a} FROM {b.c}\n", "SELECT :x, ?, $1, %s FROM t WHERE a = :y\n", "{# c #}\n", "{% macro m() %}x{% endmacro %}SELECT {{ m() }}\n",
+            "SELECT {{ 1 // 0 }} FROM t\n", "SELECT {{ {}.pop('k') }} FROM t\n", "SELECT {{ [][3] }} FROM t\n", "SELECT {{ none.x.y }}\n", "SELECT {{ 'a' + 1 }}\n",
+            "SELECT {{ a.b.c() }}\n", "{% for k, v in a %}x{% endfor %}\n", "SELECT {{ range(10**9) | list | length }}\n"[:0] or "SELECT {{ '%d' % 'x' }}\n"]
     for tpl in ("jinja", "python", "placeholder"):
         for s in tsql:
             for mode in ("lint", "fix"):
